@@ -30,25 +30,62 @@ package processors
 //@ assigns nothing
 //@ ensures [qualifier-match] result == QualMatch(n, m)
 
+// Clause shapes shared by filterDependencies (about one call) and PostProcessProperties (about every field):
+// r is the narrowed list, c the candidate list it was computed from.
+//@ spec func NilFree(r []*component_definition.Meta) bool = forall(i, int, implies(0 <= i && i < len(r), r[i] != nil), r[i])
+//@ spec func FromCands(c []*component_definition.Meta, r []*component_definition.Meta) bool = forall(i, int, implies(0 <= i && i < len(r), exists(k, int, 0 <= k && k < len(c) && c[k] == r[i])), r[i])
+//@ spec func QualOnly(n *component_definition.Property, r []*component_definition.Meta) bool = forall(i, int, implies(0 <= i && i < len(r), InQ(n, r[i])), r[i])
+//@ spec func NoneInQ(n *component_definition.Property, c []*component_definition.Meta) bool = forall(k, int, implies(0 <= k && k < len(c), !InQ(n, c[k])), c[k])
+//@ spec func KeepsAll(n *component_definition.Property, c []*component_definition.Meta, r []*component_definition.Meta) bool = forall(k, int, implies(0 <= k && k < len(c) && InQ(n, c[k]), exists(i, int, 0 <= i && i < len(r) && r[i] == c[k])), c[k])
+//@ spec func UniquePrimaryWins(n *component_definition.Property, c []*component_definition.Meta, r []*component_definition.Meta) bool = forall(k, int, implies(0 <= k && k < len(c) && InQ(n, c[k]) && Primary(c[k]) && forall(j, int, implies(0 <= j && j < len(c) && InQ(n, c[j]) && Primary(c[j]), c[j] == c[k]), c[j]), r[0] == c[k]), c[k])
+//@ spec func NoPrimaryInQ(n *component_definition.Property, c []*component_definition.Meta) bool = forall(j, int, implies(0 <= j && j < len(c) && InQ(n, c[j]), !Primary(c[j])), c[j])
+//@ spec func UniqueUnnamedWins(n *component_definition.Property, c []*component_definition.Meta, r []*component_definition.Meta) bool = implies(NoPrimaryInQ(n, c), forall(k, int, implies(0 <= k && k < len(c) && InQ(n, c[k]) && !Named(c[k]) && forall(j, int, implies(0 <= j && j < len(c) && InQ(n, c[j]) && !Named(c[j]), c[j] == c[k]), c[j]), r[0] == c[k]), c[k]))
+//@ spec func BestClass(n *component_definition.Property, c []*component_definition.Meta, r []*component_definition.Meta) bool = implies(!NoPrimaryInQ(n, c), Primary(r[0])) && implies(NoPrimaryInQ(n, c) && exists(j, int, 0 <= j && j < len(c) && InQ(n, c[j]) && !Named(c[j])), !Named(r[0]))
+// Narrowed: everything the property says about one field whose candidates c were narrowed to r.
+//@ spec func Narrowed(n *component_definition.Property, c []*component_definition.Meta, r []*component_definition.Meta) bool = NilFree(r) && FromCands(c, r) && QualOnly(n, r) && !NoneInQ(n, c) && implies(!Single(n), KeepsAll(n, c, r)) && implies(Single(n), len(r) == 1 && UniquePrimaryWins(n, c, r) && UniqueUnnamedWins(n, c, r) && BestClass(n, c, r))
+
 //@ func filterDependencies
 //@ property C08 C10
 //@ ghost-tags metas
 //@ requires [point-wellformed] n != nil && n.Field != nil && n.Field.Base != nil && n.Type != nil
 //@ requires [candidates-wellformed] forall(k, int, implies(0 <= k && k < len(metas) && metas[k] != nil, metas[k].Base != nil && metas[k].Type != nil), metas[k])
 //@ assigns FilterPos, FilterSrc
-//@ ensures [nil-free] implies(result1 == nil, forall(i, int, implies(0 <= i && i < len(result0), result0[i] != nil), result0[i]))
-//@ ensures [from-candidates] implies(result1 == nil, forall(i, int, implies(0 <= i && i < len(result0), exists(k, int, 0 <= k && k < len(metas) && metas[k] == result0[i])), result0[i]))
-//@ ensures [qualifier-only] implies(result1 == nil, forall(i, int, implies(0 <= i && i < len(result0), InQ(n, result0[i])), result0[i]))
-//@ ensures [none-is-error] (result1 != nil) == forall(k, int, implies(0 <= k && k < len(metas), !InQ(n, metas[k])), metas[k])
+//@ ensures [nil-free] implies(result1 == nil, NilFree(result0))
+//@ ensures [from-candidates] implies(result1 == nil, FromCands(metas, result0))
+//@ ensures [qualifier-only] implies(result1 == nil, QualOnly(n, result0))
+//@ ensures [none-is-error] (result1 != nil) == NoneInQ(n, metas)
 //@ ensures [error-means-nil] implies(result1 != nil, len(result0) == 0)
-//@ ensures [slice-keeps-all] implies(result1 == nil && !Single(n), forall(k, int, implies(0 <= k && k < len(metas) && InQ(n, metas[k]), exists(i, int, 0 <= i && i < len(result0) && result0[i] == metas[k])), metas[k]))
+//@ ensures [slice-keeps-all] implies(result1 == nil && !Single(n), KeepsAll(n, metas, result0))
 //@ ensures [slice-each-once-in-order] implies(result1 == nil && !Single(n), forall(i, int, forall(j, int, implies(0 <= i && i < j && j < len(result0), tag(result0, i) < tag(result0, j)), tag(result0, j)), tag(result0, i)) && forall(i, int, implies(0 <= i && i < len(result0), 0 <= tag(result0, i) && tag(result0, i) < len(metas) && result0[i] == metas[tag(result0, i)]), tag(result0, i)))
 //@ ensures [single-one] implies(result1 == nil && Single(n), len(result0) == 1)
-//@ ensures [unique-primary-wins] implies(result1 == nil && Single(n), forall(k, int, implies(0 <= k && k < len(metas) && InQ(n, metas[k]) && Primary(metas[k]) && forall(j, int, implies(0 <= j && j < len(metas) && InQ(n, metas[j]) && Primary(metas[j]), metas[j] == metas[k]), metas[j]), result0[0] == metas[k]), metas[k]))
-//@ ensures [unique-unnamed-wins] implies(result1 == nil && Single(n) && forall(j, int, implies(0 <= j && j < len(metas) && InQ(n, metas[j]), !Primary(metas[j])), metas[j]), forall(k, int, implies(0 <= k && k < len(metas) && InQ(n, metas[k]) && !Named(metas[k]) && forall(j, int, implies(0 <= j && j < len(metas) && InQ(n, metas[j]) && !Named(metas[j]), metas[j] == metas[k]), metas[j]), result0[0] == metas[k]), metas[k]))
-//@ ensures [tie-stays-in-best-class] implies(result1 == nil && Single(n), implies(exists(j, int, 0 <= j && j < len(metas) && InQ(n, metas[j]) && Primary(metas[j])), Primary(result0[0])) && implies(!exists(j, int, 0 <= j && j < len(metas) && InQ(n, metas[j]) && Primary(metas[j])) && exists(j, int, 0 <= j && j < len(metas) && InQ(n, metas[j]) && !Named(metas[j])), !Named(result0[0])))
+//@ ensures [unique-primary-wins] implies(result1 == nil && Single(n), UniquePrimaryWins(n, metas, result0))
+//@ ensures [unique-unnamed-wins] implies(result1 == nil && Single(n), UniqueUnnamedWins(n, metas, result0))
+//@ ensures [tie-stays-in-best-class] implies(result1 == nil && Single(n), BestClass(n, metas, result0))
+//@ ensures [input-untouched] forall(i, int, implies(0 <= i && i < len(metas), metas[i] == oldat(metas, i))) && (backing(result0) == 0 || fresh(result0))
 //@ loop 1 invariant [scan-bounds] 0 <= _done && _done <= len(result) && len(result) > 1
 //@ loop 1 invariant [no-primary-so-far] forall(i, int, implies(0 <= i && i < _done, !Primary(result[i])), result[i])
 //@ loop 1 invariant [candidate-from-result] exists(i, int, 0 <= i && i < len(result) && result[i] == candidate && (i < _done || i == 0))
 //@ loop 1 invariant [candidate-last-unnamed] implies(exists(i, int, 0 <= i && i < _done && !Named(result[i])), !Named(candidate) && forall(i, int, implies(0 <= i && i < _done && !Named(result[i]) && forall(j, int, implies(0 <= j && j < _done && !Named(result[j]), result[j] == result[i]), result[j]), candidate == result[i]), result[i]))
 //@ loop 1 invariant [candidate-first-if-all-named] implies(forall(i, int, implies(0 <= i && i < _done, Named(result[i])), result[i]), candidate == result[0])
+
+// ---- every field is narrowed, independently of the others (the per-field sentence of C08) -----------------------
+
+//@ func (*dependencyFurtherMatchingPostProcessors).PostProcessProperties
+//@ property C08 C09 C07
+//@ requires [properties-wellformed] forall(k, int, implies(0 <= k && k < len(properties), properties[k] != nil && properties[k].Field != nil && properties[k].Field.Base != nil && properties[k].Type != nil), properties[k])
+//@ requires [properties-distinct] forall(j, int, forall(k, int, implies(0 <= j && j < k && k < len(properties), properties[j] != properties[k])))
+//@ requires [candidates-wellformed] forall(k, int, forall(i, int, implies(0 <= k && k < len(properties) && 0 <= i && i < len(properties[k].Injects) && properties[k].Injects[i] != nil, properties[k].Injects[i].Base != nil && properties[k].Injects[i].Type != nil)))
+//@ assigns any(properties[0].Injects), FilterPos, FilterSrc
+//@ ensures [every-component-property-narrowed] implies(result1 == nil, forall(k, int, implies(0 <= k && k < len(properties) && properties[k].PropertyType == component_definition.PropertyTypeComponent, Narrowed(properties[k], old(properties[k].Injects), properties[k].Injects) || (NoneInQ(properties[k], old(properties[k].Injects)) && !properties[k].IsRequired() && len(properties[k].Injects) == 0)), properties[k]))
+//@ ensures [injects-nil-free] implies(result1 == nil, forall(k, int, implies(0 <= k && k < len(properties) && properties[k].PropertyType == component_definition.PropertyTypeComponent, NilFree(properties[k].Injects)), properties[k]))
+//@ ensures [required-none-errors] implies(exists(k, int, 0 <= k && k < len(properties) && properties[k].PropertyType == component_definition.PropertyTypeComponent && properties[k].IsRequired() && NoneInQ(properties[k], old(properties[k].Injects))), result1 != nil)
+//@ ensures [narrowing-frame] forall(p, *component_definition.Property, implies(forall(k, int, implies(0 <= k && k < len(properties), properties[k] != p)), p.Injects == old(p.Injects)))
+//@ ensures [non-component-untouched] forall(k, int, implies(0 <= k && k < len(properties) && properties[k].PropertyType != component_definition.PropertyTypeComponent, properties[k].Injects == old(properties[k].Injects)), properties[k])
+//@ loop 1 invariant [bounds] 0 <= _done && _done <= len(properties)
+//@ loop 1 invariant [inputs-kept] forall(k, int, implies(0 <= k && k < len(properties), properties[k] == oldat(properties, k)))
+//@ loop 1 invariant [done-narrowed] forall(k, int, implies(0 <= k && k < _done && properties[k].PropertyType == component_definition.PropertyTypeComponent, Narrowed(properties[k], old(properties[k].Injects), properties[k].Injects) || (NoneInQ(properties[k], old(properties[k].Injects)) && !properties[k].IsRequired() && len(properties[k].Injects) == 0)), properties[k])
+//@ loop 1 invariant [done-no-required-missing] forall(k, int, implies(0 <= k && k < _done && properties[k].PropertyType == component_definition.PropertyTypeComponent && properties[k].IsRequired(), !NoneInQ(properties[k], old(properties[k].Injects))), properties[k])
+//@ loop 1 invariant [rest-untouched] forall(k, int, implies(_done <= k && k < len(properties), properties[k].Injects == old(properties[k].Injects)), properties[k])
+//@ loop 1 invariant [non-component-untouched] forall(k, int, implies(0 <= k && k < len(properties) && properties[k].PropertyType != component_definition.PropertyTypeComponent, properties[k].Injects == old(properties[k].Injects)), properties[k])
+//@ loop 1 invariant [frame] forall(p, *component_definition.Property, implies(forall(k, int, implies(0 <= k && k < len(properties), properties[k] != p)), p.Injects == old(p.Injects)))
+//@ loop 1 invariant [candidate-lists-kept] forall(k, int, forall(i, int, implies(0 <= k && k < len(properties) && 0 <= i && i < len(old(properties[k].Injects)), oldat(old(properties[k].Injects), i) == old(properties[k].Injects)[i])))
